@@ -3,6 +3,7 @@ import Rtsp.Model.Headers.KeyVal
 Model of /repo/pkg/headers/session.go.
 -/
 namespace Rtsp.Hdr
+open Rtsp.Facts
 
 structure Session where
   session : Str := []
@@ -14,7 +15,7 @@ def Session.steps (t : Option Nat) : List (Str × Str) → Res (Option Nat)
   | [] => .ok t
   | (k, v) :: rest =>
     if k = cs!"timeout" then
-      match parseUint 32 v with
+      match parseUint Hdr.timeoutBits v with
       | some n => Session.steps (some n) rest
       | none => .err .number
     else Session.steps t rest
